@@ -308,6 +308,37 @@ def eval_call(repo, ci, spec, quantized):
     out = r[0] if isinstance(r, (tuple, list)) else r
   else:
     out = pe.call_func(Func(fn, owner.module, [], "call", o, owner), [x], {})
+  # a second call after the layer's quantizers were retuned in place (as a
+  # bit-width search or a noise schedule does): nothing quantized during the
+  # first call may be reused
+  o.attrs["__second_call__"] = None
+  try:
+    retuned = 0
+    seen = set()
+    for v in list(o.attrs.values()) + [q for q in (o.attrs.get(
+        "quantizers") or []) if q is not None]:
+      if isinstance(v, Mock) and v.name.startswith("q_") and id(v) not in \
+          seen:
+        seen.add(id(v))
+        role = v.name[2:]
+        v.attrs["__call__"] = (lambda pe_, a, k, role=role: None if a[0] is
+                               None else Tensor(
+                                   ("app", "Q2_" + role, (),
+                                    (pe_.as_term(a[0]),)),
+                                   a[0].shape if isinstance(a[0], Tensor)
+                                   else None))
+        retuned += 1
+    if retuned:
+      if spec.get("rnn"):
+        r2 = pe.call_func(Func(fn, owner.module, [], "call", o, owner),
+                          [Tensor(("sym", "inputs"), (2, 4)), states], {})
+        out2 = r2[0] if isinstance(r2, (tuple, list)) else r2
+      else:
+        out2 = pe.call_func(Func(fn, owner.module, [], "call", o, owner),
+                            [x], {})
+      o.attrs["__second_call__"] = out2
+  except PyRaise as e:
+    o.attrs["__second_call__"] = e
   return pe, o, out, owner, fn
 
 
@@ -480,6 +511,35 @@ def rule_layers(rep, repo, tier="quick"):
                       "%s: %s receives %s=%r, the layer's own value is %r" %
                       (cfg, spec["op"], k, attrs.get(k, "<absent>"), v),
                       loc=loc, instance=cfg)
+      # R6 a retuned quantizer is the one applied from then on
+      out2 = o.attrs.get("__second_call__")
+      if isinstance(out2, PyRaise):
+        rep.fail("R6", unit, "second-call-raises", "%s: a second call after "
+                 "the quantizers were retuned raises %s" % (cfg, out2),
+                 loc=loc, instance=cfg)
+      elif isinstance(out2, Tensor):
+        def qapps(t):
+          found, seen_ = set(), set()
+
+          def walk(u):
+            if id(u) in seen_ or not isinstance(u, tuple) or not u:
+              return
+            seen_.add(id(u))
+            if u[0] == "app" and u[1].startswith(("Q_", "Q2_")):
+              found.add(u[1])
+            for s_ in u[1:]:
+              if isinstance(s_, tuple):
+                walk(s_)
+          walk(t)
+          return found
+        first, second = qapps(term), qapps(out2.term)
+        stale = sorted(n_ for n_ in second if n_.startswith("Q_"))
+        rep.check(not stale and {n_.replace("Q2_", "Q_") for n_ in second}
+                  == first, "R6", unit, "quantized-value-kept-between-calls",
+                  "%s: after every quantizer was retuned the second call "
+                  "still contains %s (first call applied %s, second %s)" % (
+                      cfg, stale or "other quantizers", sorted(first),
+                      sorted(second)), loc=loc, instance=cfg)
       # R5 reported = applied
       if qset:
         gq_owner, gq = ci.find_method("get_quantizers")
@@ -655,6 +715,29 @@ def rule_pooling(rep, repo):
         else:
           inner = mk_app("super.call", [X])
         want = mk_app("Q_act", [inner])
+        # second call after the quantizers were retuned in place
+        try:
+          for v in list(o.attrs.values()) + [q for q in (o.attrs.get(
+              "quantizers") or []) if q is not None]:
+            if isinstance(v, Mock) and v.name.startswith("q_"):
+              role = v.name[2:]
+              v.attrs["__call__"] = (
+                  lambda pe_, a, k, role=role: Tensor(
+                      ("app", "Q2_" + role, (), (pe_.as_term(a[0]),)),
+                      a[0].shape if isinstance(a[0], Tensor) else None))
+          out2 = pe.call_func(Func(fn, owner.module, [], "call", o, owner),
+                              [x], {})
+          nf2 = Fwd()(out2.term)
+          stale = sorted({a[1] for a in nf2.atoms() if a[0] == "app" and
+                          a[1].startswith("Q_")})
+          rep.check(not stale, "R6", unit,
+                    "quantized-value-kept-between-calls",
+                    "%s: after the quantizers were retuned the second call "
+                    "still uses %s: %s" % (cfg, stale, show(nf2, 160)),
+                    loc=owner.module.loc(fn), instance=cfg)
+        except PyRaise as e:
+          rep.fail("R6", unit, "second-call-raises", "%s: %s" % (cfg, e),
+                   instance=cfg)
         rep.check(nf == want, "R1", unit, "pooling-structure",
                   "%s computes %s, expected the sum over the spatial axes "
                   "%s (Keras pooling of x*area) times the quantized "
